@@ -72,6 +72,7 @@ macro_rules! hash_harness { ($name:ident, $n:literal, $unw:literal) => {
     pub fn $name() { hash_is_feature_xor($n); }
 }; }
 hash_harness!(c11_hash_formula_2men, 0, 8);
+hash_harness!(c11_hash_formula_3men, 1, 8);
 hash_harness!(c11_hash_formula_4men, 2, 8);
 hash_harness!(c11_hash_formula_6men, 4, 8);
 
@@ -158,6 +159,8 @@ macro_rules! kind_harness { ($name:ident, $t:literal, $cap:literal, $unw:literal
     pub fn $name() { piece_kind($t, $cap); }
 }; }
 // at most `cap` men of the kind per side (the loop body is the same for every further man)
+kind_harness!(c14_kind_pawn_1, 0, 1, 3); kind_harness!(c14_kind_knight_1, 1, 1, 3); kind_harness!(c14_kind_bishop_1, 2, 1, 3);
+kind_harness!(c14_kind_rook_1, 3, 1, 3); kind_harness!(c14_kind_queen_1, 4, 1, 3);
 kind_harness!(c14_kind_pawn_2, 0, 2, 4); kind_harness!(c14_kind_knight_2, 1, 2, 4); kind_harness!(c14_kind_bishop_2, 2, 2, 4);
 kind_harness!(c14_kind_rook_2, 3, 2, 4); kind_harness!(c14_kind_queen_2, 4, 2, 4); kind_harness!(c14_kind_king_1, 5, 1, 3);
 kind_harness!(c14_kind_pawn_3, 0, 3, 5); kind_harness!(c14_kind_knight_3, 1, 3, 5); kind_harness!(c14_kind_bishop_3, 2, 3, 5);
